@@ -77,7 +77,8 @@ def loop_inv():
 def fc_return(ctx):
     c = ctx.args["context"].t
     if "exit_k:for#1" not in ctx.p.ghost:
-        return None          # the outside-extract branch: see C11.outside
+        # inside an extraction fill_context must run its loop under the CALLER's options (no push, no self-call)
+        return BoolVal(False)
     u = ctx.p.ghost["u_prev"]
     HU = ctx.p.ghost.get("H_after_U")
     if HU is None or ctx.p.ghost.get("U_calls", 0) != 1 or ctx.p.ghost.get("E_calls", 0) != 1:
@@ -111,6 +112,8 @@ def fc_options(ctx):
 def contract_fill_context(ex, p, args, kwargs, node):
     """callee contract of fill_context used at its own recursive call and by glue: may set the hook-settable fields of the
        context it is given, may raise any Exception, leaves the options as they were; requires being inside an extraction"""
+    if kwargs or len(args) != 1:
+        raise Unsupported("fill_context call shape")
     co = ex.unit.bindings["current_options"]
     wc, rct = fields_now(p, co.t)
     p.trace = p.trace + [("fill_context", (args[0].t, wc, rct), None)]
@@ -131,7 +134,10 @@ COMMON = dict(bindings=dict(EXTRACT_BINDINGS, elaborate_context=hook_E, unwrap_c
 
 UNITS = [
     Unit("C11.fill_context.inside", FC, fc_setup(True),
-         post=[Clause("C11.exits", fc_return), Clause("C11.options_untouched", fc_options, on=("any",))],
+         post=[Clause("C11.exits", fc_return), Clause("C11.options_untouched", fc_options, on=("any",)),
+               Clause("C13.fill_context_inside_keeps_callers_options",
+                      lambda ctx: BoolVal(not any(t[0] == "fill_context" for t in ctx.p.trace) and "push_prev" not in ctx.p.ghost),
+                      on=("any",))],
          invariants={(FC, "for#1"): loop_inv()}, allowed_raise=fc_raise_ok,
          contracts={FC: contract_fill_context},
          assumptions=["elaborate_context may set obj/inner_stack/children/hide/description/varname of the Context it is given and may "
